@@ -4,7 +4,6 @@ import (
 	"go/ast"
 	"go/token"
 	"go/types"
-	"strings"
 
 	"gnoverif/engine"
 )
@@ -26,6 +25,7 @@ func init() {
 		Mutant{"recv-error-continues", F, "\t\t\t\t\tc.stopForError(err)\n\t\t\t\t}\n\t\t\t\tbreak FOR_LOOP\n\t\t\t}\n\t\t\tif msgBytes != nil {", "\t\t\t\t\tc.stopForError(err)\n\t\t\t\t}\n\t\t\t\tcontinue FOR_LOOP\n\t\t\t}\n\t\t\tif msgBytes != nil {", "recv-errors"},
 		Mutant{"unknown-channel-continues", F, "\t\t\t\tc.stopForError(err)\n\t\t\t\tbreak FOR_LOOP\n\t\t\t}\n\n\t\t\tmsgBytes, err := channel.recvPacketMsg(pkt)", "\t\t\t\tc.stopForError(err)\n\t\t\t\tcontinue FOR_LOOP\n\t\t\t}\n\n\t\t\tmsgBytes, err := channel.recvPacketMsg(pkt)", "recv-errors"},
 		Mutant{"incomplete-delivered", F, "if msgBytes != nil {\n\t\t\t\t// NOTE: This means the reactor.Receive", "if msgBytes != nil || pkt.EOF == 0 {\n\t\t\t\t// NOTE: This means the reactor.Receive", "deliver-complete"},
+		Mutant{"empty-message-overwritten", F, "\tif ch.sending == nil {\n\t\tif len(ch.sendQueue) == 0 {", "\tif len(ch.sending) == 0 {\n\t\tif len(ch.sendQueue) == 0 {", "dequeue-keeps-message"},
 		Mutant{"eof-off-by-one", F, "if len(ch.sending) <= maxSize {", "if len(ch.sending) < maxSize {", "send-framing"},
 		Mutant{"remainder-skips-byte", F, "ch.sending = ch.sending[min(maxSize, len(ch.sending)):]", "ch.sending = ch.sending[min(maxSize, len(ch.sending))+1:]", "send-framing"},
 		Mutant{"writer-bigger-than-reader", F, "maxPacketMsgPayloadSize: conn.config.MaxPacketMsgPayloadSize,", "maxPacketMsgPayloadSize: conn.config.MaxPacketMsgPayloadSize * 2,", "size-agree"},
@@ -246,16 +246,18 @@ func c43RecvRoutine(c *engine.Ctx, p *engine.Prog, f *engine.Fn, fIdx, fOnRecv, 
 	const P = "tm2/pkg/p2p/conn."
 	info := f.Info()
 	g := f.Graph()
-	// who calls onReceive
-	var users []string
+	// who calls onReceive (closed under private helpers of recvRoutine)
+	var callRefs []engine.Ref
+	var valueUses []string
 	for _, r := range p.RefsTo(func(o types.Object) bool { return o == types.Object(fOnRecv) }) {
 		if r.Fn != nil && r.IsCall {
-			users = append(users, r.Fn.Root().Name)
+			callRefs = append(callRefs, r)
 		} else if r.Fn != nil && r.Fn.Root().Name != P+"NewMConnectionWithConfig" {
-			users = append(users, r.Fn.Root().Name+" (value use)")
+			valueUses = append(valueUses, r.Fn.Root().Name+" (value use)")
 		}
 	}
-	c.Check("who-may-call", P+"MConnection.onReceive", token.NoPos, len(users) == 1 && users[0] == f.Name, "callers: "+join(users))
+	extra := append(p.UnexpectedCallers(callRefs, []string{f.Name}), valueUses...)
+	c.Check("who-may-call", P+"MConnection.onReceive", token.NoPos, len(callRefs) >= 1 && len(extra) == 0, "callers outside recvRoutine and its private helpers: "+join(extra))
 
 	var loop ast.Stmt
 	engine.InspectBody(f, func(n ast.Node) {
@@ -269,112 +271,245 @@ func c43RecvRoutine(c *engine.Ctx, p *engine.Prog, f *engine.Fn, fIdx, fOnRecv, 
 		return
 	}
 	dec, dobjs := niBoundCall(f, "tm2/pkg/amino.UnmarshalSizedReader")
-	rp, robjs := niBoundCall(f, P+"(*Channel).recvPacketMsg")
-	if dec == nil || rp == nil || len(robjs) != 2 || len(dobjs) != 2 {
-		c.Undecided("deliver-complete", f.Name, "packet decode / recvPacketMsg calls not found as single bound calls")
+	if dec == nil || len(dobjs) != 2 {
+		c.Undecided("deliver-complete", f.Name, "packet decode call not found as a single bound call")
 		return
 	}
 	// reader limit
 	c.Check("size-agree", f.Name+" packet decode bounded by _maxPacketMsgSize", dec.Pos(), len(dec.Call.Args) == 3 && niMentionsField(info, dec.Call.Args[2], fMaxPkt), "")
-	var onr []*engine.Site
-	for _, s := range f.Calls() {
-		if s.Call != nil && niSelField(info, s.Call.Fun, fOnRecv) {
-			onr = append(onr, s)
-		}
+
+	// the delivery may sit in recvRoutine or in a private helper called from it
+	isOnRecv := func(fn *engine.Fn, n ast.Node) bool {
+		call, ok := n.(*ast.CallExpr)
+		return ok && niSelField(fn.Info(), call.Fun, fOnRecv)
 	}
-	c.Floor("deliver-complete", len(onr), 1)
-	// channel lookup
-	var chObj, okObj types.Object
-	var pktObj types.Object
-	engine.InspectBody(f, func(n ast.Node) {
-		as, ok := n.(*ast.AssignStmt)
-		if !ok || len(as.Lhs) != 2 || len(as.Rhs) != 1 {
-			return
+	onD := f.DeepFind(2, isOnRecv)
+	c.Floor("deliver-complete", len(onD), 1)
+	// "continuing" exits of a function on the delivery path: for recvRoutine the
+	// next loop iteration; for a helper the returns that do not report failure
+	// (result true / nil error / no result)
+	contBlocks := func(fn *engine.Fn) []*niCfgBlock {
+		if fn == f {
+			return []*niCfgBlock{head}
 		}
-		ix, ok := ast.Unparen(as.Rhs[0]).(*ast.IndexExpr)
-		if !ok || !niSelField(info, ix.X, fIdx) {
-			return
+		var out []*niCfgBlock
+		for _, r := range niReturns(fn) {
+			rs := r.Node.(*ast.ReturnStmt)
+			if len(rs.Results) == 0 {
+				out = append(out, r.Block)
+				continue
+			}
+			last := rs.Results[len(rs.Results)-1]
+			tv := fn.Info().Types[last]
+			isFalse := tv.Value != nil && tv.Value.ExactString() == "false"
+			isErr := !isNil(last) && tv.Value == nil && niIsErrorType(fn.Info().TypeOf(last))
+			if !isFalse && !isErr {
+				out = append(out, r.Block)
+			}
 		}
-		if niSelField(info, ix.Index, fChID) {
-			chObj, okObj = engine.ObjOf(info, as.Lhs[0]), engine.ObjOf(info, as.Lhs[1])
-			pktObj = engine.ObjOf(info, ast.Unparen(ix.Index).(*ast.SelectorExpr).X)
+		// falling off the end of a function without results
+		return out
+	}
+	onSitesIn := func(fn *engine.Fn) []*engine.Site {
+		var out []*engine.Site
+		for _, s := range fn.Calls() {
+			if s.Call != nil && niSelField(fn.Info(), s.Call.Fun, fOnRecv) {
+				out = append(out, s)
+			}
 		}
-	})
-	for _, s := range onr {
+		if fn == f {
+			for _, d := range onD {
+				if d.Inner != d.Outer {
+					out = append(out, d.Outer)
+				}
+			}
+		}
+		return out
+	}
+	// leaves: from block b of fn, neither a continuing exit nor a delivery is reachable
+	leaves := func(fn *engine.Fn, b *niCfgBlock) bool {
+		fg := fn.Graph()
+		for _, t := range contBlocks(fn) {
+			if b == t || fg.Reach(b, t, nil) {
+				return false
+			}
+		}
+		for _, o := range onSitesIn(fn) {
+			if b == o.Block || fg.Reach(b, o.Block, nil) {
+				return false
+			}
+		}
+		return true
+	}
+	// callFails: in recvRoutine the failing result of the helper call leaves the loop
+	callFails := func(outer *engine.Site) bool {
+		for _, b := range g.CFG.Blocks {
+			if !b.Live || len(b.Succs) != 2 || len(b.Nodes) == 0 {
+				continue
+			}
+			cond, ok := b.Nodes[len(b.Nodes)-1].(ast.Expr)
+			if !ok {
+				continue
+			}
+			e := ast.Unparen(cond)
+			neg := false
+			for {
+				u, isU := e.(*ast.UnaryExpr)
+				if !isU || u.Op != token.NOT {
+					break
+				}
+				neg = !neg
+				e = ast.Unparen(u.X)
+			}
+			var fail *niCfgBlock
+			switch x := e.(type) {
+			case *ast.CallExpr:
+				if x != outer.Call {
+					continue
+				}
+				// boolean result: false means failure
+				fail = b.Succs[1]
+				if neg {
+					fail = b.Succs[0]
+				}
+			case *ast.BinaryExpr:
+				// err-style: v != nil / v == nil with v bound to the call
+				if !isNil(x.Y) || (x.Op != token.NEQ && x.Op != token.EQL) {
+					continue
+				}
+				cs, _, _ := niHelperOf(f, x.X, f.SiteOf(cond))
+				if cs == nil || cs.Call != outer.Call {
+					continue
+				}
+				failOnTrue := (x.Op == token.NEQ) != neg
+				fail = b.Succs[1]
+				if failOnTrue {
+					fail = b.Succs[0]
+				}
+			default:
+				continue
+			}
+			return leaves(f, fail)
+		}
+		return false
+	}
+
+	for _, d := range onD {
+		D := d.Inner.Fn
+		s := d.Inner
+		dinfo := D.Info()
+		dg := D.Graph()
 		key := f.Name + " onReceive"
-		okArgs := len(s.Call.Args) == 2 && niSelField(info, s.Call.Args[0], fChID) && niMentionsObj(info, s.Call.Args[0], pktObj) && engine.ObjOf(info, s.Call.Args[1]) == robjs[0] && robjs[0] != nil
+		rp, robjs := niBoundCall(D, P+"(*Channel).recvPacketMsg")
+		if rp == nil || len(robjs) != 2 {
+			c.Undecided("deliver-complete", f.Name, "recvPacketMsg not found as a single bound call next to onReceive")
+			continue
+		}
+		// channel lookup
+		var chObj, okObj, pktObj types.Object
+		engine.InspectBody(D, func(n ast.Node) {
+			as, ok := n.(*ast.AssignStmt)
+			if !ok || len(as.Lhs) != 2 || len(as.Rhs) != 1 {
+				return
+			}
+			ix, ok := ast.Unparen(as.Rhs[0]).(*ast.IndexExpr)
+			if !ok || !niSelField(dinfo, ix.X, fIdx) {
+				return
+			}
+			if niSelField(dinfo, ix.Index, fChID) {
+				chObj, okObj = engine.ObjOf(dinfo, as.Lhs[0]), engine.ObjOf(dinfo, as.Lhs[1])
+				pktObj = engine.ObjOf(dinfo, ast.Unparen(ix.Index).(*ast.SelectorExpr).X)
+			}
+		})
+		okArgs := len(s.Call.Args) == 2 && niSelField(dinfo, s.Call.Args[0], fChID) && niMentionsObj(dinfo, s.Call.Args[0], pktObj) && engine.ObjOf(dinfo, s.Call.Args[1]) == robjs[0] && robjs[0] != nil
 		c.Check("deliver-complete", key+" gets (pkt.ChannelID, completed message)", s.Pos(), okArgs, "")
-		okChan := chObj != nil && engine.ObjOf(info, niRecvExpr(rp.Call)) == chObj && len(rp.Call.Args) == 1 && engine.ObjOf(info, rp.Call.Args[0]) == pktObj
+		okChan := chObj != nil && engine.ObjOf(dinfo, niRecvExpr(rp.Call)) == chObj && len(rp.Call.Args) == 1 && engine.ObjOf(dinfo, rp.Call.Args[0]) == pktObj
 		c.Check("deliver-complete", key+" message assembled by the channel looked up under pkt.ChannelID", s.Pos(), okChan, "channelsIdx[pkt.ChannelID].recvPacketMsg(pkt)")
 		var nonNil, okFound, chNonNil bool
-		for _, ft := range niFacts(g, s) {
-			if engine.ObjOf(info, ft.Expr) == okObj && okObj != nil && ft.Holds {
+		for _, ft := range niFacts(dg, s) {
+			if engine.ObjOf(dinfo, ft.Expr) == okObj && okObj != nil && ft.Holds {
 				okFound = true
 			}
 			if cmp, isCmp := niAsCmp(ft); isCmp {
-				if engine.ObjOf(info, cmp.X) == robjs[0] && isNil(cmp.Y) && cmp.Op == token.NEQ && len(niGateFacts(ft.Gate)) == 1 {
+				if engine.ObjOf(dinfo, cmp.X) == robjs[0] && isNil(cmp.Y) && cmp.Op == token.NEQ && len(niGateFacts(ft.Gate)) == 1 {
 					nonNil = true
 				}
-				if engine.ObjOf(info, cmp.X) == chObj && isNil(cmp.Y) && cmp.Op == token.NEQ {
+				if engine.ObjOf(dinfo, cmp.X) == chObj && isNil(cmp.Y) && cmp.Op == token.NEQ {
 					chNonNil = true
 				}
 			}
 		}
 		c.Check("deliver-complete", key+" only for a non-nil (completed) message", s.Pos(), nonNil, "must be gated by msgBytes != nil alone")
 		c.Check("deliver-complete", key+" only for a known channel", s.Pos(), okFound && chNonNil, "must be on the false side of `!ok || channel == nil`")
-		for _, gd := range []struct {
-			n string
-			s *engine.Site
-		}{{"packet decode", dec}, {"recvPacketMsg", rp}} {
-			gr := g.CheckedGuard(gd.s, s)
-			c.Check("deliver-complete", key+" only after checked "+gd.n, s.Pos(), gr.OK && c39NilTestPasses(gr), gr.Why)
-		}
-	}
-	// error paths leave the loop
-	stops := f.CallsTo(P + "(*MConnection).stopForError")
-	c.Floor("recv-errors", len(stops), 4)
-	for i, s := range stops {
-		_ = i
-		bad := ""
-		for _, sc := range s.Block.Succs {
-			if g.Reach(sc, head, nil) {
-				bad = "the receive loop continues after stopForError"
+		gr := g.CheckedGuard(dec, d.Outer)
+		c.Check("deliver-complete", key+" only after checked packet decode", s.Pos(), gr.OK && c39NilTestPasses(gr), gr.Why)
+		gr = dg.CheckedGuard(rp, s)
+		c.Check("deliver-complete", key+" only after checked recvPacketMsg", s.Pos(), gr.OK && c39NilTestPasses(gr), gr.Why)
+
+		// failing branches of the lookup / recv tests (in D) leave without delivering
+		errIs := func(o types.Object) func(ast.Expr) (bool, bool) {
+			return func(e ast.Expr) (bool, bool) {
+				be, ok := ast.Unparen(e).(*ast.BinaryExpr)
+				if !ok || o == nil || engine.ObjOf(dinfo, be.X) != o || !isNil(be.Y) {
+					return false, false
+				}
+				return be.Op == token.NEQ || be.Op == token.EQL, be.Op == token.NEQ
 			}
 		}
-		for _, o := range onr {
-			if g.ReachableAfter(s, o) {
-				bad = "onReceive is reachable after stopForError"
-			}
-		}
-		c.Check("recv-errors", f.Name+" stopForError #"+string(rune('1'+i))+" leaves the loop", s.Pos(), bad == "", bad)
-	}
-	// failing branches of the three tests leave the loop
-	type ec struct {
-		name string
-		pred func(ast.Expr) (bool, bool) // matches, failOnTrue
-	}
-	errIs := func(o types.Object) func(ast.Expr) (bool, bool) {
-		return func(e ast.Expr) (bool, bool) {
-			be, ok := ast.Unparen(e).(*ast.BinaryExpr)
-			if !ok || o == nil || engine.ObjOf(info, be.X) != o || !isNil(be.Y) {
+		for _, t := range []struct {
+			name string
+			pred func(ast.Expr) (bool, bool)
+		}{
+			{"recvPacketMsg error", errIs(robjs[1])},
+			{"unknown channel", func(e ast.Expr) (bool, bool) {
+				if okObj == nil {
+					return false, false
+				}
+				// `!ok || channel == nil` (fails when true) or `ok && channel != nil` (fails when false)
+				for _, a := range engine.Conjuncts(e, token.LOR) {
+					if u, isU := ast.Unparen(a).(*ast.UnaryExpr); isU && u.Op == token.NOT && engine.ObjOf(dinfo, u.X) == okObj {
+						return true, true
+					}
+				}
+				for _, a := range engine.Conjuncts(e, token.LAND) {
+					if engine.ObjOf(dinfo, a) == okObj {
+						return true, false
+					}
+				}
 				return false, false
+			}},
+		} {
+			found, ok := false, true
+			for _, b := range dg.CFG.Blocks {
+				if !b.Live || len(b.Succs) != 2 || len(b.Nodes) == 0 {
+					continue
+				}
+				cond, isE := b.Nodes[len(b.Nodes)-1].(ast.Expr)
+				if !isE {
+					continue
+				}
+				m, failTrue := t.pred(cond)
+				if !m {
+					continue
+				}
+				found = true
+				fail := b.Succs[0]
+				if !failTrue {
+					fail = b.Succs[1]
+				}
+				if !leaves(D, fail) {
+					ok = false
+				}
 			}
-			return be.Op == token.NEQ || be.Op == token.EQL, be.Op == token.NEQ
+			c.Check("recv-errors", f.Name+" "+t.name+" leaves the loop without delivering", D.Pos(), found && ok, "the failing branch must reach neither the next iteration nor onReceive")
+		}
+		if D != f {
+			c.Check("recv-errors", f.Name+" failure reported by "+D.Name+" leaves the loop", d.Outer.Pos(), callFails(d.Outer), "the receive loop must stop when the packet handler reports failure")
 		}
 	}
-	tests := []ec{
-		{"packet decode error", errIs(dobjs[1])},
-		{"recvPacketMsg error", errIs(robjs[1])},
-		{"unknown channel", func(e ast.Expr) (bool, bool) {
-			if okObj == nil {
-				return false, false
-			}
-			return niMentionsObj(info, e, okObj) && len(engine.Conjuncts(e, token.LOR)) >= 1 && strings.Contains(engine.ExprString(e), "!"), true
-		}},
-	}
-	for _, t := range tests {
-		found := false
-		ok := true
+	// decode error (in recvRoutine)
+	{
+		found, ok := false, true
 		for _, b := range g.CFG.Blocks {
 			if !b.Live || len(b.Succs) != 2 || len(b.Nodes) == 0 {
 				continue
@@ -383,25 +518,51 @@ func c43RecvRoutine(c *engine.Ctx, p *engine.Prog, f *engine.Fn, fIdx, fOnRecv, 
 			if !isE {
 				continue
 			}
-			m, failTrue := t.pred(cond)
-			if !m {
+			be, isB := ast.Unparen(cond).(*ast.BinaryExpr)
+			if !isB || engine.ObjOf(info, be.X) != dobjs[1] || !isNil(be.Y) || (be.Op != token.NEQ && be.Op != token.EQL) {
 				continue
 			}
 			found = true
 			fail := b.Succs[0]
-			if !failTrue {
+			if be.Op == token.EQL {
 				fail = b.Succs[1]
 			}
-			if g.Reach(fail, head, nil) {
+			if !leaves(f, fail) {
 				ok = false
 			}
-			for _, o := range onr {
-				if fail == o.Block || g.Reach(fail, o.Block, nil) {
-					ok = false
+		}
+		c.Check("recv-errors", f.Name+" packet decode error leaves the loop without delivering", f.Pos(), found && ok, "the failing branch must reach neither the next iteration nor onReceive")
+	}
+	// every stopForError (direct or in a helper) ends the receive loop
+	var stops []engine.DeepSite
+	for _, d := range f.DeepCallsTo(2, P+"(*MConnection).stopForError") {
+		if !d.Outer.Deferred { // the deferred panic handler runs after the loop has been left
+			stops = append(stops, d)
+		}
+	}
+	c.Floor("recv-errors", len(stops), 4)
+	for i, d := range stops {
+		bad := ""
+		if d.Inner == d.Outer {
+			for _, sc := range d.Outer.Block.Succs {
+				if !leaves(f, sc) {
+					bad = "the receive loop continues (or delivers) after stopForError"
 				}
 			}
+		} else {
+			h := d.Inner.Fn
+			for _, sc := range d.Inner.Block.Succs {
+				if !leaves(h, sc) {
+					bad = "after stopForError " + h.Name + " can still report success or deliver"
+				}
+			}
+			if len(d.Chain) != 1 {
+				bad = "stopForError nested more than one helper deep"
+			} else if !callFails(d.Outer) {
+				bad = "the receive loop does not stop when " + h.Name + " reports failure"
+			}
 		}
-		c.Check("recv-errors", f.Name+" "+t.name+" leaves the loop without delivering", f.Pos(), found && ok, "the failing branch must reach neither the next iteration nor onReceive")
+		c.Check("recv-errors", f.Name+" stopForError #"+string(rune('1'+i))+" leaves the loop", d.Inner.Pos(), bad == "", bad)
 	}
 	// type switch: Ping, Pong, Msg + erroring default
 	okSw := false
@@ -413,14 +574,21 @@ func c43RecvRoutine(c *engine.Ctx, p *engine.Prog, f *engine.Fn, fIdx, fOnRecv, 
 		_, b := sw.Types[P+"PacketPong"]
 		_, m := sw.Types[P+"PacketMsg"]
 		if a && b && m && len(sw.Types) == 3 && sw.HasDefault {
-			for _, s := range stops {
-				if sw.Default.Pos() <= s.Pos() && s.Pos() < sw.Default.End() {
+			for _, d := range stops {
+				if sw.Default.Pos() <= d.Outer.Pos() && d.Outer.Pos() < sw.Default.End() {
 					okSw = true
 				}
 			}
 		}
 	}
 	c.Check("recv-errors", f.Name+" packet switch = {Ping, Pong, Msg} + erroring default", f.Pos(), okSw, "an unknown packet type must stop the connection")
+}
+
+func niIsErrorType(t types.Type) bool {
+	if t == nil {
+		return false
+	}
+	return types.Implements(t, types.Universe.Lookup("error").Type().Underlying().(*types.Interface))
 }
 
 func c43SendFraming(c *engine.Ctx, p *engine.Prog, f *engine.Fn, fSending, fMaxPay, fBytes, fEOF, fChID *types.Var) {
@@ -433,7 +601,7 @@ func c43SendFraming(c *engine.Ctx, p *engine.Prog, f *engine.Fn, fSending, fMaxP
 	}
 	// min(max, len(sending)) in either order
 	isCut := func(e ast.Expr) bool {
-		call, ok := ast.Unparen(e).(*ast.CallExpr)
+		call, ok := ast.Unparen(c43Resolve(f, e)).(*ast.CallExpr)
 		if !ok || !engine.IsBuiltinCall(info, call, "min") || len(call.Args) != 2 {
 			return false
 		}
@@ -445,16 +613,28 @@ func c43SendFraming(c *engine.Ctx, p *engine.Prog, f *engine.Fn, fSending, fMaxP
 	}
 	var bytesSite *engine.Site
 	okBytes := false
+	// value given to a field by `x.f = v` or by the literal `T{f: v}`
+	fieldVal := func(w engine.Write) (ast.Expr, ast.Node) {
+		switch n := w.Node.(type) {
+		case *ast.AssignStmt:
+			if len(n.Rhs) == 1 && len(n.Lhs) == 1 {
+				return n.Rhs[0], n
+			}
+		case *ast.KeyValueExpr:
+			return n.Value, n
+		}
+		return nil, nil
+	}
 	for _, w := range p.FieldWrites(fBytes) {
-		if w.Fn != f || w.Kind == "lit" {
+		if w.Fn != f {
 			continue
 		}
-		as, ok := w.Node.(*ast.AssignStmt)
-		if !ok || len(as.Rhs) != 1 {
+		v, node := fieldVal(w)
+		if v == nil {
 			continue
 		}
-		bytesSite = f.SiteOf(as)
-		if se, isS := ast.Unparen(as.Rhs[0]).(*ast.SliceExpr); isS && niSelField(info, se.X, fSending) && se.Low == nil && se.High != nil && isCut(se.High) && len(g.Gates(bytesSite)) == 0 {
+		bytesSite = f.SiteOf(node)
+		if se, isS := ast.Unparen(v).(*ast.SliceExpr); isS && bytesSite != nil && niSelField(info, se.X, fSending) && se.Low == nil && se.High != nil && isCut(se.High) && len(g.Gates(bytesSite)) == 0 {
 			okBytes = true
 		}
 	}
@@ -528,11 +708,11 @@ func c43SendFraming(c *engine.Ctx, p *engine.Prog, f *engine.Fn, fSending, fMaxP
 	c.Floor(rule, n, 2)
 	okID := false
 	for _, w := range p.FieldWrites(fChID) {
-		if w.Fn != f || w.Kind == "lit" {
+		if w.Fn != f {
 			continue
 		}
-		if as, ok := w.Node.(*ast.AssignStmt); ok && len(as.Rhs) == 1 {
-			if se, isS := ast.Unparen(as.Rhs[0]).(*ast.SelectorExpr); isS && se.Sel.Name == "ID" && niMentionsObj(info, se, niRecv(f)) {
+		if v, _ := fieldVal(w); v != nil {
+			if se, isS := ast.Unparen(c43Resolve(f, v)).(*ast.SelectorExpr); isS && se.Sel.Name == "ID" && niMentionsObj(info, se, niRecv(f)) {
 				okID = true
 			}
 		}
